@@ -30,7 +30,7 @@ func H_C05(name string, c1, c2, c3, dflt, n int) {
 	acts := RunStrat(s, snaps, 0)
 	id := kfS(st.KFLen, cfg, n)
 	check := func(label string, c bool) {
-		if id != "" {
+		if id != "" && !st.KFHoldOnly {
 			vrt.KnownFinding(id, label, c)
 		} else {
 			vrt.Assert(label, c)
@@ -460,5 +460,33 @@ func H_C14_Value(name string, c1, c2, c3, dn, zeroPrices int) {
 		}
 	}
 	vrt.Assert("rows", rows >= 1 && rows <= n)
+	vrt.Reach("end")
+}
+
+// H_C04S_Tail: two runs on snapshot series of the same length that agree on the first
+// m snapshots and differ afterwards: the actions at positions < m are the same.
+func H_C04S_Tail(name string, c1, c2, c3, dn, cut int) {
+	st := LookupS(name)
+	cfg := cfg3(c1, c2, c3)
+	s := st.Make(cfg, false)
+	w := st.Warm(s)
+	n := w + dn
+	m := n - cut
+	if m < 0 {
+		m = 0
+	}
+	if id := kfS(st.KFOutcome, cfg, n); id != "" {
+		vrt.KnownOutcome(id)
+	}
+	snapsA := SymSnapshots("", n)
+	tail := SymSnapshots("t", n)
+	snapsB := append(append([]*asset.Snapshot(nil), snapsA[:m]...), tail[m:]...)
+	a := RunStrat(s, snapsA, 0)
+	b := RunStrat(st.Make(cfg, false), snapsB, 0)
+	for k := range a {
+		if k < m && k < len(b) {
+			vrt.AssertAt("causal", k, a[k] == b[k])
+		}
+	}
 	vrt.Reach("end")
 }
